@@ -593,6 +593,8 @@ def ex_rfa_rel(c):
             return [run(X, Y), run([cx * v + dx for v in X], [ay * v + by for v in Y])]
         if rel == "affine_exact":
             ay, by, cx, dx = (float(_fr(r)) for r in c["maps"])
+            if "dx_big" in c:          # a time shift beyond what the judge's integers hold: sign * 2**power, still exact in binary64
+                dx += c["dx_big"][0] * 2.0 ** c["dx_big"][1]
             xa = np.array([float(v) for v in X])
             ya = np.array([float(v) for v in Y])
             o = rfa_run(dict(base), xa * cx + dx, ya * ay + by)
